@@ -52,6 +52,7 @@ func init() {
 			"Not decided: convergence to the source's chain, liveness, schedule-dependent reorg ranges."
 		syncFn := func(name string) *ssa.Function { return p.Func("sync", "Synchronizer", name) }
 
+		c06SourcePassthrough(c)
 		// (no-underflow) heights are uint64: `remoteHeight - 1` and the like in the reorg walk-back must be guarded against 0 —
 		// a wrapped "last possibly valid height" makes the revert task ask the source for heights it does not have and give up,
 		// on every retry (defect F28: the source's chain is a single, different block 0).
@@ -783,4 +784,65 @@ func c06FeedUniqueIDs(c *Ctx) {
 		}
 	}
 	c.check(ok, "feed-unique-ids", "feed.Feed.subscribe", p.Pos(fnPos(f)), "the id is read from a counter of the feed that subscribe advances", why+": ids can repeat while an older subscription with the same id is still live, and its entry in the subscriber map is overwritten")
+}
+
+// c06SourcePassthrough: (source-passthrough) what the feeder data source reports as the source's latest header / block is what
+// the gateway answered to *this* request: every header or block returned on a success path of its methods is computed from
+// the result of a gateway call made in the same invocation. Seeded change C06-K remembers the highest head ever seen and
+// returns it when the gateway answers with a lower one ("lagging replica"): after a reorg to a shorter fork the reorg
+// detector keeps comparing against the orphaned head and the node never converges to the source's chain.
+func c06SourcePassthrough(c *Ctx) {
+	p := c.P
+	n := 0
+	for _, name := range []string{"BlockHeaderLatest", "BlockByNumber"} {
+		f := p.Func("sync", "feederGatewayDataSource", name)
+		if f == nil {
+			c.und("source-passthrough", "feederGatewayDataSource."+name, "", "anchor not found")
+			continue
+		}
+		// gateway calls: invokes on the receiver's StarknetData collaborator
+		gw := map[ssa.Value]bool{}
+		for _, g := range withAnons(f) {
+			for _, s := range sitesOf(g) {
+				if s.Method != nil && s.Recv != nil && strings.Contains(s.Recv.Type().String(), "starknetdata.StarknetData") {
+					if v, ok := s.Instr.(ssa.Value); ok {
+						gw[v] = true
+					}
+				}
+			}
+		}
+		if len(gw) == 0 {
+			c.und("source-passthrough", "feederGatewayDataSource."+name, p.Pos(fnPos(f)), "no call of the gateway found")
+			continue
+		}
+		for _, r := range returnsOf(f) {
+			if len(r.Results) < 2 || !isNilConst(r.Results[len(r.Results)-1]) {
+				continue
+			}
+			n++
+			sl := backSlice(r.Results[0])
+			ok := false
+			for v := range sl {
+				if gw[v] {
+					ok = true
+				}
+			}
+			// and it does not come from the object's own memory: no load/call on a field of the receiver other than the collaborators
+			mem := ""
+			for v := range sl {
+				if fa, isFA := v.(*ssa.FieldAddr); isFA && len(f.Params) > 0 && fa.X == ssa.Value(f.Params[0]) {
+					fn := fieldName(fa.X.Type(), fa.Field)
+					ft := fa.Type().String()
+					if !strings.Contains(ft, "starknetdata.StarknetData") && !strings.Contains(ft, "blockchain.Blockchain") {
+						mem = fn
+					}
+				}
+			}
+			c.check(ok && mem == "", "source-passthrough", "feederGatewayDataSource."+name+" success return", p.Pos(posOf(r.Ret, f)), "the value returned was computed from the gateway's answer to this request",
+				"the data source returns a value that does not come from the gateway's answer to this request"+map[bool]string{true: " (it reads its own field " + mem + ")", false: ""}[mem != ""]+": a remembered head outlives a reorg of the source to a shorter fork — the reorg check compares against a block the source no longer has")
+		}
+	}
+	if n == 0 {
+		c.und("source-passthrough", "feederGatewayDataSource", "", "no success return found")
+	}
 }
